@@ -249,6 +249,10 @@ def run_case(kind, params, ctx):
         intended = [f"OP_{m}"] + [k.hex() for k in keys] + [f"OP_{n}", "OP_CHECKMULTISIG"]
         _template(ctx, "multisig_script_pubkey", spk, intended)
         sigs = [rand_bytes(rng, rng.randrange(8, 74)) for _ in range(m)]
+        if m >= 2 and params["salt"] % 3 == 0:
+            # the same byte string more than once (one party holding two of the keys signs deterministically): one push PER SUPPLIED signature
+            sigs[-1] = sigs[0]
+            ctx.count("tmpl.multisig_repeated_signature")
         _template(ctx, "multisig_script_sig", bs.multisig_script_sig(sigs), ["OP_0"] + [s.hex() for s in sigs])
         redeem = rscript.assemble(intended)
         _template(ctx, "p2sh_multisig_script_pubkey", bs.p2sh_multisig_script_pubkey(m, keys), ["OP_HASH160", h160(redeem).hex(), "OP_EQUAL"])
